@@ -5,6 +5,7 @@ import (
 	"go/token"
 	"go/types"
 	"math/big"
+	"regexp"
 	"strings"
 
 	"golang.org/x/tools/go/ssa"
@@ -561,8 +562,9 @@ func ruleC09UP4(w *World, r *Report) {
 				}
 			}
 			n++
-			want := fmt.Sprintf("getMeterConfigurationFromQER(qer.%sMbr, qer.%sGbr)", dir, dir)
-			r.check(dir != "" && strings.HasSuffix(cfg, want), "R09.4", cn, dir+" cell configured from "+dir+" rates", w.Pos(c.Pos()), cfg, "meter cell "+cell+" configured from "+cfg)
+			// (further arguments, if any, are constants: a burst duration handed in by the caller)
+			want := regexp.MustCompile(fmt.Sprintf(`getMeterConfigurationFromQER\(qer\.%sMbr, qer\.%sGbr(, [0-9]+)*\)$`, dir, dir))
+			r.check(dir != "" && want.MatchString(cfg), "R09.4", cn, dir+" cell configured from "+dir+" rates", w.Pos(c.Pos()), cfg, "meter cell "+cell+" configured from "+cfg)
 		}
 		r.check(n == 2, "R09.4", cn, "an uplink and a downlink meter entry", w.Pos(cf.Pos()), "2", fmt.Sprintf("%d entries", n))
 	}
